@@ -163,6 +163,14 @@ class World:
                     if v == 13 and not isinstance(v, bool):
                         raise ValueError("boom-argument")        # a plain Python exception, not a library error
                     return v
+        if "directive @boomi" in (render.sdl_exec(self.types, self.roots, hooks=True) if cfg.get("hooks") else self.sdl):
+            @t.Directive("boomi", schema_name=sn)
+            class BoomI:
+                async def on_post_input_coercion(self, directive_args, next_directive, parent_node, value, ctx):
+                    v = await next_directive(parent_node, value, ctx)
+                    if v == 13 and not isinstance(v, bool):
+                        raise ValueError("boom-input-field")
+                    return v
         if "Cs" in self.types:
             @t.Scalar("Cs", schema_name=sn)
             class Cs:
